@@ -284,7 +284,7 @@ class G19(gen.Gen):
                 units.append(Block("program", S("program %s" % nm, "program"), S("end program %s" % nm, "end"),
                                    [(None, self.unit_body(False))], unit=True))
             elif k == "subroutine":
-                units.append(Block("subroutine", S("subroutine %s(%s)" % (nm, r.pick(["x", "x, y", "n"])), "subroutine"),
+                units.append(Block("subroutine", S("subroutine %s(%s)" % (nm, r.pick(["x", "x, y", "n", "x, *", "x, *, n", "*"])), "subroutine"),
                                    S("end subroutine %s" % nm, "end"), [(None, self.unit_body(True))], unit=True))
             elif k == "function":
                 units.append(self.function19(nm))
@@ -476,6 +476,9 @@ def evaluate(case):
             if missing:
                 return Result(False, "token-lost:%s" % st["kind"], nontrivial, labels,
                               {"index": k, "source": case_lines[k], "printed": ln, "token": missing})
+            if st["kind"] in ("subroutine", "function", "call") and case_lines and case_lines[k].count("*") != ln.count("*"):
+                return Result(False, "token-lost:%s:star" % st["kind"], nontrivial, labels,
+                              {"index": k, "source": case_lines[k], "printed": ln})
             if st["label"] and not ln.startswith(st["label"] + " "):
                 return Result(False, "label-lost:%s" % st["kind"], nontrivial, labels, {"line": ln, "label": st["label"]})
     else:
